@@ -282,9 +282,17 @@ Manifest decode_manifest(const std::string& uri) {
     std::copy_n(payload.begin() + offset, manifest.nonce.bytes.size(), manifest.nonce.bytes.begin());
     offset += manifest.nonce.bytes.size();
 
-    const auto expires = read_u64(payload, offset);
+    // The field holds signed seconds (the encoder writes pre-epoch expiries in two's complement).
+    // Reject values the clock's time_point cannot hold instead of overflowing the conversion.
+    const auto expires = static_cast<std::int64_t>(read_u64(payload, offset));
     offset += 8;
-    manifest.expires_at = std::chrono::system_clock::time_point{std::chrono::seconds{expires}};
+    using TimePoint = std::chrono::system_clock::time_point;
+    constexpr auto min_expires = std::chrono::duration_cast<std::chrono::seconds>(TimePoint::min().time_since_epoch()).count();
+    constexpr auto max_expires = std::chrono::duration_cast<std::chrono::seconds>(TimePoint::max().time_since_epoch()).count();
+    if (expires < min_expires || expires > max_expires) {
+        throw std::invalid_argument("manifest expiry out of range");
+    }
+    manifest.expires_at = TimePoint{std::chrono::seconds{expires}};
 
     manifest.threshold = payload[offset++];
     manifest.total_shares = payload[offset++];
